@@ -189,8 +189,13 @@ func TestVerif_C18_ParkedWriters(t *testing.T) {
 			c18pRec.Class("answered_without_reading_body")
 			return
 		}
-		// meanwhile
+		// meanwhile (the other clients may spell the group's URL with a trailing slash: it is the same object)
+		mpath := path
+		if !onUser && rapid.Bool().Draw(t, "othersUseTrailingSlash") {
+			mpath = path + "/"
+		}
 		lastAck := "initial"
+
 		want := current()
 		invalidated := false
 		var plan []string
@@ -207,7 +212,7 @@ func TestVerif_C18_ParkedWriters(t *testing.T) {
 					mh = map[string]string{"Authorization": auth, "Content-Type": "application/json"}
 					mk = "unconditional"
 				}
-				r, err := rig.raw("PUT", path, mh, bodyOf(n))
+				r, err := rig.raw("PUT", mpath, mh, bodyOf(n))
 				if err != nil {
 					parked.c.Close()
 					t.Fatalf("C12/C18: PUT %s: no HTTP response: %v", path, err)
@@ -217,7 +222,7 @@ func TestVerif_C18_ParkedWriters(t *testing.T) {
 					lastAck, want, invalidated = fmt.Sprintf("meanwhile writer %d", n), "present:"+mark(n), true
 				}
 			case "delete", "delete-recreate":
-				r, err := rig.raw("DELETE", path, map[string]string{"Authorization": auth}, nil)
+				r, err := rig.raw("DELETE", mpath, map[string]string{"Authorization": auth}, nil)
 				if err != nil {
 					parked.c.Close()
 					t.Fatalf("C12/C18: DELETE %s: no HTTP response: %v", path, err)
@@ -230,7 +235,7 @@ func TestVerif_C18_ParkedWriters(t *testing.T) {
 					}
 				}
 				if op == "delete-recreate" {
-					r, err := rig.raw("PUT", path, map[string]string{"Authorization": auth, "Content-Type": "application/json"}, bodyOf(n))
+					r, err := rig.raw("PUT", mpath, map[string]string{"Authorization": auth, "Content-Type": "application/json"}, bodyOf(n))
 					if err != nil {
 						parked.c.Close()
 						t.Fatalf("C12/C18: PUT %s: no HTTP response: %v", path, err)
